@@ -3169,10 +3169,10 @@ pub fn gen_c13_lifecycle(rng: &mut Rng, d: &mut Dist) -> Vec<String> {
 
 pub fn gen_c13(rng: &mut Rng, d: &mut Dist, idx: u64) -> Vec<String> {
     const GROUP: u64 = 48;
-    if idx % 12 == 11 {
-        // a third of these: a consumer whose partitions wait behind large entries, served by brokers that answer more than
+    if idx % 12 == 11 || idx % 24 == 8 {
+        // idx % 24 == 8: a consumer whose partitions wait behind large entries, served by brokers that answer more than
         // they were asked (well-formed, all subscribed): the consumer's queues and counters must cope
-        if rng.chance(1, 3) {
+        if idx % 24 == 8 {
             bump(d, "over-answering-brokers");
             if rng.chance(1, 2) {
                 let mut sc = gen_c17(rng, d, idx);
